@@ -550,11 +550,22 @@ func (d *dsys) Apply(i int) (sig, desc string) {
 		if m := d.checkWritten(redraw == "full", want); m != "" {
 			return "overdraw:" + firstWords(m, 3), fmt.Sprintf("%v: %s", o, m)
 		}
+		// "... and are repainted by the first Show() after being unlocked": whatever the
+		// application put on the terminal there while it held the lock is painted over
+		for y := 0; y < d.sh.H; y++ {
+			for x := 0; x < d.sh.W; x++ {
+				sc := d.sh.At(x, y)
+				if sc.Unlocked && !sc.Lock && d.term.At(x, y).Stamp <= d.lastStamp && !(d.cfg.brTrick && d.sh.W == 1) {
+					return "not-repainted-after-unlock", fmt.Sprintf("%v: cell (%d,%d) was unlocked since the previous Show() and this Show() did not write it", o, x, y)
+				}
+			}
+		}
 	}
 	// end of a Show: bookkeeping for the next one
 	for k := range d.sh.Cells {
 		if !d.sh.Cells[k].Lock {
 			d.sh.Cells[k].ChangedSince = false
+			d.sh.Cells[k].Unlocked = false
 		}
 	}
 	d.sh.AllChanged = false
